@@ -91,6 +91,15 @@ def _cases(draw, ctx):
                 dst = draw(st.sampled_from(pool))
                 if dst not in spec["tracks"]:
                     spec["tracks"][dst] = list(spec["tracks"][src])
+    # instrument sections with an EMPTY body ('[HardSingle]', '{', '}'): the header is there, so the track is
+    # there (without events), under its own key
+    if draw(st.integers(0, 3)) == 0:
+        free = [h for h in S.HEADER_LIST if h not in spec["tracks"]]
+        for h in draw(st.lists(st.sampled_from(free), min_size=1, max_size=3, unique=True)):
+            spec["tracks"][h] = []
+        if spec["tracks"] and draw(st.integers(0, 2)) == 0:
+            h = draw(st.sampled_from(sorted(spec["tracks"])))
+            spec["tracks"][h] = []
     names = [n for n, _ in S.sections_of(spec)]
     order = draw(st.permutations(names))
     nunk = draw(st.sampled_from([0, 0, 1, 1, 2, 3]))
